@@ -26,11 +26,10 @@ Proof.
   - apply N.leb_gt in Hm. split; [intro H; left; exact H|intros [H|H]; [exact H|lia]].
 Qed.
 (* extractIP = the peer address without port and zone, for every address shape the handshake can see: *net.TCPAddr and
-   *net.UDPAddr (IPv4, IPv4-mapped, global IPv6, zone-scoped link-local IPv6) and generic "host:port" addresses.  The one
-   shape allowed to deviate is the recorded finding extractip-generic-addr-keeps-zone (a generic net.Addr whose string
-   keeps the zone; repaired by fixes/C03-extractip-keeps-zone.diff, after which that row is plain as well). *)
+   *net.UDPAddr (IPv4, IPv4-mapped, global IPv6, zone-scoped link-local IPv6) and generic net.Addr values whose string is
+   "host:port", with or without a zone (the generic-with-zone row was the finding repaired by a253559). *)
 Lemma extract_ip_drops_port_and_zone :
   length extract_table = 13%nat /\
-  forallb (fun r => let '(_, _, typed, zoned, plain) := r in orb plain (andb (negb typed) zoned)) extract_table = true.
+  forallb (fun r => let '(_, _, _, _, plain) := r in plain) extract_table = true.
 Proof. split; vm_compute; reflexivity. Qed.
 Close Scope N_scope.
